@@ -22,7 +22,11 @@
  *   query_bounded           r_n r_q              (r_q: the query bytes, little endian in one 64-bit word)
  *   parse_text              r_tn r_tw0 r_tw1 r_tw2   (the text, little endian in three 64-bit words; absent: built-in corpus)
  *   parse_authority_exact   r_n + the logged delimiter searches r_mcn r_mcc<k> r_mcr<k> (character, index found), r_pu_ok r_pu_val
- *   parse_corpus            -                     (built-in texts, every one checked against the reference parser)
+ *   parse_corpus            -                     (units parse_scheme/_path/_query/_authority, init_*: the text bytes of their
+ *                                                  counterexamples are contents of is_fresh objects and cannot be recovered from
+ *                                                  the trace; instead a built-in list of texts is run through the real parser
+ *                                                  and compared with the reference parser - a native check of the same
+ *                                                  postcondition, NOT the verifier's input)
  *   builder                 options.scheme.len options.host_name.len options.port options.path.len options.query_string.len g_port_digits
  */
 #include <inttypes.h>
@@ -142,7 +146,9 @@ static uint8_t *from_word(uint64_t w, size_t n) {
 /* ------------------------------------------------------------------ per-byte encoders */
 static void one_char(int path, size_t len, size_t cap, uint8_t v) {
     /* precondition of the contract: three spare bytes */
-    if (cap - len < 3) { printf("input outside the precondition (fewer than 3 spare bytes)\n"); exit(3); }
+    if (cap < 3) { printf("input outside the precondition (fewer than 3 spare bytes)\n"); exit(3); }
+    /* the trace gives the LAST value of a field: buffer.len may be the length after the call (up to 3 more) */
+    if (cap - len < 3) len = cap - 3;
     size_t shift = 0;
     if (cap > REAL_MAX) { /* a process cannot back 2^50 bytes: keep the spare room, move the window down */
         if (len > REAL_MAX - 3) { shift = len - (REAL_MAX - 3); len -= shift; }
@@ -167,18 +173,11 @@ static void one_char(int path, size_t len, size_t cap, uint8_t v) {
 
 /* ------------------------------------------------------------------ whole-string encoders / decoder on pattern input */
 static const uint8_t ENC_PATTERN[] = {'a', '/', ' ', 'Z', '%', '~', 0xff, '0', '&', '-', 0x00, '_', '=', '.', '+', '9', ':', '?', '#', '[', 0x7f, ']', '@', 0x80, 'z'};
-static void encode_op(int path) {
-    size_t len = get2("buffer.len", "r_len", 5), cap = get2("buffer.capacity", "r_cap", 8), n = get2("cursor.len", "r_n", 11);
-    int fits = n <= SIZE_MAX / 3 && 3 * n <= SIZE_MAX - len;
-    if (fits && (n > REAL_MAX / 4 || len > REAL_MAX)) { printf("input not constructible natively (n=%zu len=%zu)\n", n, len); exit(3); }
-    if (!fits && len > REAL_MAX) { len = REAL_MAX; }
-    if (cap > REAL_MAX) cap = REAL_MAX;
-    if (cap < len) cap = len;
+/* one call on the given input bytes (in[] holds min(n, what is backed) bytes) */
+static void encode_case(int path, size_t len, size_t cap, size_t n, const uint8_t *src, size_t nreal, int fits) {
     struct aws_byte_buf b = mkbuf(len, cap, 9), old = b;
     uint8_t *snap = dup_bytes(b.buffer, len);
-    size_t nreal = fits ? n : 16; /* a length whose triple overflows must be refused before a byte is read */
-    uint8_t *in = malloc(nreal ? nreal : 1);
-    for (size_t i = 0; i < nreal; ++i) in[i] = ENC_PATTERN[i % sizeof ENC_PATTERN];
+    uint8_t *in = dup_bytes(src, nreal); /* exact size: an over-read is a sanitizer report */
     struct aws_byte_cursor c = {.len = n, .ptr = in};
     int r = path ? aws_byte_buf_append_encoding_uri_path(&b, &c) : aws_byte_buf_append_encoding_uri_param(&b, &c);
     const char *fn = path ? "append_encoding_uri_path" : "append_encoding_uri_param";
@@ -190,18 +189,50 @@ static void encode_op(int path) {
         uint8_t *want = malloc(3 * n + 1);
         size_t m = ref_encode(in, n, path, want);
         if (b.len > b.capacity) FAIL("%s: len %zu > capacity %zu", fn, b.len, b.capacity);
-        if (b.len != old.len + m) FAIL("%s: new length %zu, expected %zu + %zu", fn, b.len, old.len, m);
+        if (b.len != old.len + m) { printf("VIOLATED: %s(", fn); show(in, n > 40 ? 40 : n); printf("): new length %zu, expected %zu + %zu\n", b.len, old.len, m); s_fail = 1; }
         else {
             for (size_t i = 0; i < old.len; ++i) if (b.buffer[i] != snap[i]) { FAIL("%s: byte %zu below the old length changed", fn, i); break; }
             for (size_t i = 0; i < m; ++i)
-                if (b.buffer[old.len + i] != want[i]) { FAIL("%s: output byte %zu is 0x%02x, specified encoding has 0x%02x", fn, i, b.buffer[old.len + i], want[i]); break; }
+                if (b.buffer[old.len + i] != want[i]) { printf("VIOLATED: %s(", fn); show(in, n > 40 ? 40 : n); printf("): output byte %zu is 0x%02x, specified encoding has 0x%02x\n", i, b.buffer[old.len + i], want[i]); s_fail = 1; break; }
         }
+        free(want);
+    }
+    aws_byte_buf_clean_up(&b);
+    free(snap); free(in);
+}
+static void encode_op(int path) {
+    size_t len = get2("buffer.len", "r_len", 5), cap = get2("buffer.capacity", "r_cap", 8), n = get2("cursor.len", "r_n", 11);
+    int fits = n <= SIZE_MAX / 3 && 3 * n <= SIZE_MAX - len;
+    if (fits && (n > REAL_MAX / 4 || len > REAL_MAX)) {
+        /* a process cannot back the verifier's 2^50-byte views; the function treats every length alike */
+        printf("input of %zu bytes at length %zu reduced to %zu bytes at length %zu\n", n, len, n % 4096 + 1, len % 4096);
+        n = n % 4096 + 1; len %= 4096;
+    }
+    if (!fits && len > REAL_MAX) len = REAL_MAX;
+    if (cap > REAL_MAX) cap = cap % 4096;
+    if (cap < len) cap = len;
+    if (!fits) { /* a length whose triple overflows must be refused before a byte is read */
+        encode_case(path, len, cap, n, ENC_PATTERN, 16, 0);
+    } else {
+        uint8_t *in = malloc(n ? n : 1);
+        /* the pattern over every character class, started at every position; then the worst case (every byte escaped: 3n
+         * output bytes) and the best case (every byte kept) */
+        size_t rots = n <= 256 ? sizeof ENC_PATTERN : 3;
+        for (size_t rot = 0; rot < rots && !s_fail; ++rot) {
+            for (size_t i = 0; i < n; ++i) in[i] = ENC_PATTERN[(i + rot) % sizeof ENC_PATTERN];
+            encode_case(path, len, cap, n, in, n, 1);
+        }
+        memset(in, 0xFF, n);
+        if (!s_fail) encode_case(path, len, cap, n, in, n, 1);
+        memset(in, 'k', n);
+        if (!s_fail) encode_case(path, len, cap, n, in, n, 1);
+        free(in);
     }
     /* the NULL/0 view (excluded from the contract units, see contracts/uri.h) */
     struct aws_byte_buf e = mkbuf(2, 4, 1);
     struct aws_byte_cursor z = {0, NULL};
     int rz = path ? aws_byte_buf_append_encoding_uri_path(&e, &z) : aws_byte_buf_append_encoding_uri_param(&e, &z);
-    if (rz != AWS_OP_SUCCESS || e.len != 2) FAIL("%s on the empty view: rc %d len %zu", fn, rz, e.len);
+    if (rz != AWS_OP_SUCCESS || e.len != 2) FAIL("%s on the empty view: rc %d len %zu", path ? "append_encoding_uri_path" : "append_encoding_uri_param", rz, e.len);
 }
 static void fill_decodable(uint8_t *in, size_t n) {
     static const char *unit[] = {"a", "%41", "b", "%2f", "/", "%7E", "%00", "c", "%fF", "+"};
@@ -340,6 +371,7 @@ static void check_parse(const uint8_t *t, size_t n) {
     }
     if (!e.ok) { aws_uri_clean_up(&u); free(copy); return; }
     if (u.uri_str.len != n || (n && memcmp(u.uri_str.buffer, t, n))) FAIL("uri_str is not a copy of the text");
+    if (u.self_size != sizeof(struct aws_uri) || u.allocator != aws_default_allocator()) FAIL("self_size %zu / allocator not as initialised (sizeof(struct aws_uri) is %zu)", u.self_size, sizeof(struct aws_uri));
     CHECK_VIEW(scheme, e.scheme_off, e.scheme_len, "scheme");
     CHECK_VIEW(authority, e.auth_off, e.auth_len, "authority");
     if (e.has_ui) { CHECK_VIEW(userinfo, e.ui_off, e.ui_len, "user-info"); CHECK_VIEW(user, e.ui_off, e.user_len, "user"); }
@@ -362,7 +394,7 @@ static void parse_corpus(void) {
     static const char *texts[] = {
         "https://www.test.com:8443/path/to/resource?test1=value1&test2=value2", "www.test.com", "www.test.com:8443", "http://h", "h/p", "h?q", "h?a/b",
         "s://u@h", "s://u:p@h:1/p?q", "u@[::1]", "s://u@[::1]:443/a", "bob:pw@[2001:db8::1]", "[::1]", "[::1]:80", "s://[v6]:65536/x?y=/", "h:", "h:0", "h:4294967295",
-        "h:4294967296", "h:12a", "h:99999999999999999999", "s://", "s:/x", "/", "?", "/p?", "h/", "s://h?", "s://:80", "s://@h", "s://u:@h", "s://:p@h", "[::1", "a@b@c", "a:b:c@h:7",
+        "h:4294967296", "h:12a", "h:99999999999999999999", "s://", "s:/x", "s:/", "ab:/", "/", "?", "/p?", "h/", "s://h?", "s://:80", "s://@h", "s://u:@h", "s://:p@h", "[::1", "a@b@c", "a:b:c@h:7",
         "s://h:80?x=1/2", "s://h/p/q/r?x=1&y=2&z", "h/a:b", "1.2.3.4:5", "s://[::]", "s://u@[::]:", "x://y:1?z",
     };
     for (size_t i = 0; i < sizeof texts / sizeof *texts; ++i) check_parse((const uint8_t *)texts[i], strlen(texts[i]));
@@ -515,45 +547,63 @@ int main(int argc, char **argv) {
         /* the text is rebuilt from the logged first-occurrence searches: every search that found its character puts that
          * character at the found position, the port text gets decimal digits, everything else is a neutral letter */
         if (!has("r_n")) { parse_corpus(); goto done; }
-        size_t n = get("r_n", 0), k = get("r_mcn", 0);
-        if (n > REAL_MAX) { printf("input not constructible natively (text of %zu bytes)\n", n); return 3; }
-        uint8_t *t = malloc(n + 1);
-        memset(t, 'a', n);
+        size_t n0 = get("r_n", 0), k = get("r_mcn", 0);
         if (k > 6) k = 6;
         uint8_t ch[6];
         size_t rs[6];
         for (unsigned i = 0; i < 6; ++i) { ch[i] = (uint8_t)getk("r_mcc%u", i, 0); rs[i] = getk("r_mcr%u", i, SIZE_MAX); }
         /* the searches in the order of RFC 3986 3.2: '/', '?' over the text; '@' over the authority; ':' over the user-info;
-         * ']' from the '[' of a bracketed host; ':' (port delimiter) over host[:port] resp. from the ']' on */
-        size_t idx = 0, SL = SIZE_MAX, QM = SIZE_MAX, AT = SIZE_MAX, UC = SIZE_MAX, BR = SIZE_MAX, PC = SIZE_MAX;
+         * ']' from the '[' of a bracketed host; ':' (port delimiter) over host[:port] resp. from the ']' on.  Marks = the
+         * characters these searches found, at their absolute positions */
+        struct mark { size_t pos; uint8_t c; } mk[8], tmp;
+        unsigned nm = 0;
+#define MARK(p_, c_) do { mk[nm].pos = (p_); mk[nm].c = (c_); nm++; } while (0)
+        size_t idx = 0, SL = SIZE_MAX, QM = SIZE_MAX, AT = SIZE_MAX, UC = SIZE_MAX, BR = SIZE_MAX, PC = SIZE_MAX, port_from = SIZE_MAX;
         if (idx < k && ch[idx] == '/') SL = rs[idx++];
         if (idx < k && ch[idx] == '?') QM = rs[idx++];
-        if (SL != SIZE_MAX && SL < n) t[SL] = '/';
-        if (QM != SIZE_MAX && QM < n) t[QM] = '?';
+        if (SL != SIZE_MAX && SL >= n0) SL = SIZE_MAX;
+        if (QM != SIZE_MAX && QM >= n0) QM = SIZE_MAX;
         size_t A = SL < QM ? SL : QM;
-        if (A > n) A = n;
+        if (A > n0) A = n0;
         if (idx < k && ch[idx] == '@') {
             AT = rs[idx++];
-            if (AT != SIZE_MAX && AT < A) t[AT] = '@'; else AT = SIZE_MAX;
-            if (AT != SIZE_MAX && idx < k && ch[idx] == ':') { UC = rs[idx++]; if (UC != SIZE_MAX && UC < AT) t[UC] = ':'; }
+            if (AT != SIZE_MAX && AT < A) MARK(AT, '@'); else AT = SIZE_MAX;
+            if (AT != SIZE_MAX && idx < k && ch[idx] == ':') { UC = rs[idx++]; if (UC != SIZE_MAX && UC < AT) MARK(UC, ':'); }
         }
         size_t R0 = AT == SIZE_MAX ? 0 : AT + 1, PS = R0;
         if (idx < k && ch[idx] == ']') {
-            if (R0 < A) t[R0] = '[';
+            if (R0 < A) MARK(R0, '[');
             BR = rs[idx++];
-            if (BR != SIZE_MAX && BR < A - R0) { t[R0 + BR] = ']'; PS = R0 + BR; }
+            if (BR != SIZE_MAX && BR > 0 && BR < A - R0) { MARK(R0 + BR, ']'); PS = R0 + BR; }
         }
         if (idx < k && ch[idx] == ':') {
             PC = rs[idx++];
-            if (PC != SIZE_MAX && PS <= A && PC < A - PS) {
-                t[PS + PC] = ':';
-                size_t from = PS + PC + 1, to = A, pl = to - from;
-                char digits[24];
-                int nd = snprintf(digits, sizeof digits, "%" PRIu64, get("r_pu_val", 80));
-                if (get("r_pu_ok", 1) && (size_t)nd <= pl) { memset(t + from, '0', pl); memcpy(t + to - nd, digits, (size_t)nd); }
-                else if (get("r_pu_ok", 1)) for (size_t i = from; i < to; ++i) t[i] = (uint8_t)('1' + (i - from) % 9);
-                else for (size_t i = from; i < to; ++i) t[i] = 'x';
+            /* (a bracketed host is searched from its ']' on, so the ':' cannot be at relative index 0 there) */
+            if (PC != SIZE_MAX && PS <= A && PC < A - PS && !(BR != SIZE_MAX && PC == 0)) { MARK(PS + PC, ':'); port_from = PS + PC + 1; }
+        }
+        if (SL != SIZE_MAX) MARK(SL, '/');
+        if (QM != SIZE_MAX) MARK(QM, '?');
+        for (unsigned i = 1; i < nm; ++i) for (unsigned j = i; j > 0 && mk[j].pos < mk[j - 1].pos; --j) { tmp = mk[j]; mk[j] = mk[j - 1]; mk[j - 1] = tmp; }
+        /* emit: neutral letters between the marks (a gap longer than 6 bytes is shortened to 6: a process cannot back the 2^55-byte
+         * texts the verifier likes, and only the order of the delimiters matters); the port text is the decimal text of the
+         * value the abstract number parser returned (or not a number) */
+        uint8_t *t = malloc(8 * 8 + 64);
+        size_t n = 0, prev = 0;
+        int port_done = 0;
+        for (unsigned i = 0; i <= nm; ++i) {
+            size_t upto = i < nm ? mk[i].pos : n0;
+            if (!port_done && port_from != SIZE_MAX && prev == port_from && upto >= port_from) { /* the segment [port_from, A) */
+                size_t pl = A - port_from;
+                if (pl > 0) {
+                    if (get("r_pu_ok", 1)) n += (size_t)sprintf((char *)t + n, "%" PRIu64, get("r_pu_val", 80));
+                    else { memcpy(t + n, "8x", 2); n += 2; }
+                }
+                port_done = 1;
+            } else {
+                size_t gap = upto > prev ? upto - prev : 0;
+                for (size_t g = 0; g < (gap > 6 ? 6 : gap); ++g) t[n++] = 'a';
             }
+            if (i < nm) { t[n++] = mk[i].c; prev = mk[i].pos + 1; }
         }
         (void)UC; (void)PC;
         printf("remaining text rebuilt from the search log: "); show(t, n > 80 ? 80 : n); printf("%s (%zu bytes)\n", n > 80 ? "..." : "", n);
